@@ -143,6 +143,28 @@ func boundedStrictReencode() bool {
 			}
 		}
 	}
+	// a VALID claims-set of the registered extension profile derived from profile 1 that asserts
+	// no-software-measurements: decode its encoding, encode again -- identical bytes (C09, first sentence)
+	if c, err := NewClaims(hExtP1Name); err == nil {
+		_ = c.SetClientID(1)
+		_ = c.SetSecurityLifeCycle(0x3000)
+		_ = c.SetImplID(hBytes(32, 7))
+		_ = c.SetNonce(hBytes(32, 9))
+		_ = c.SetInstID(hInstID())
+		_ = c.SetBootSeed(hBytes(32, 3))
+		if c.SetSoftwareComponents(nil) == nil && c.Validate() == nil {
+			if b1, err := EncodeClaimsToCBOR(c); err == nil {
+				d, err := DecodeAndValidateClaimsFromCBOR(b1)
+				if err != nil {
+					hCase(A, "ext-p1-no-measurements-decode", "the encoding %x of a valid claims-set does not decode: %v", b1, err)
+					ok = false
+				} else if b2, err := EncodeClaimsToCBOR(d); err != nil || !bytes.Equal(b1, b2) {
+					hCase(A, "ext-p1-no-measurements", "a valid claims-set of the profile-1-derived extension profile with the no-measurements flag encodes to %d bytes, decodes, and encodes again to %d different bytes (%v): the second encoding carries the component list as null", len(b1), len(b2), err)
+					ok = false
+				}
+			}
+		}
+	}
 	// a VALID claims-set whose text claim is not valid UTF-8: its own encoding must decode (C09, C03)
 	for _, prof := range []string{Profile2Name, Profile1Name} {
 		c := validSets()[0]
